@@ -148,8 +148,8 @@ PROPS.update({
               'histories of 2-4 runs (all APIs, shared and mut, streams; completed, interrupted, failed, dropped midway) on ONE graph value; every run compared with the model run from a fresh initial state; monitor: every later run is repeated by the harness on a freshly built graph and must give identical observations (implementation against implementation)',
               lambda c: True, 'frame theorem: a run only reads the graph value (partial: decisive part is the differential history check)',
               assumptions=['the borrow checker (rustc) is trusted for the &self paths']),
-    'C20': rt(['Y', 'Z'], {'*': EXACT}, rr.mon_c20,
-              'pairs of call-API runs (Y) and pairs of streams (Z; the second created at its first event, possibly while FnRefs of the exhausted first are still held) on one graph, interleaved in one task; each compared with the single-run model; monitor: each run is repeated alone on its own freshly built graph with its own events and must give identical observations',
+    'C20': rt(['Y', 'Z', 'W'], {'*': EXACT}, rr.mon_c20,
+              'pairs of call-API runs (Y) and pairs of streams (Z) and stream + call pairs (W; the second created at its first event, possibly while FnRefs of the exhausted first are still held) on one graph, interleaved in one task; each compared with the single-run model; monitor: each run is repeated alone on its own freshly built graph with its own events and must give identical observations',
               lambda c: True, 'independence theorem (partial, as C15)',
               assumptions=['interleaving in one task only; runs on different OS threads are not exercised']),
 })
@@ -296,7 +296,7 @@ def evaluate_bundle(prop, spec, bdir, meta):
     if hc:
         res['hang_case'] = hc
         kind = hc.split()[1] if len(hc.split()) > 1 else ''
-        if (prop, kind) in (('C04', 'X'), ('C10', 'X'), ('C05', 'S'), ('C11', 'B'), ('C18', 'B'), ('C15', 'H'), ('C20', 'Y'), ('C20', 'Z')):
+        if (prop, kind) in (('C04', 'X'), ('C10', 'X'), ('C05', 'S'), ('C11', 'B'), ('C18', 'B'), ('C15', 'H'), ('C20', 'Y'), ('C20', 'Z'), ('C20', 'W')):
             res['monitor_failures'].append(dict(what='a library call did not return within the harness time budget while running this case',
                                                 case_line=hc, key='hang', obs_lines=[]))
     n_extra = sum(1 for m in res['mismatches'] if m is None)
